@@ -77,7 +77,7 @@ def plan(tier, seed):
         for combo in itertools.product(range(len(PLACE_OUT)), repeat=n):
             cases.append({"mode": "live", "kind": "PLACE", "n": n, "out": list(combo), "pre": "none", "async": True})
     # simulation: orders completed in flight by being matched / lapsed / voided
-    nsim = 1200 if tier == "quick" else 30000
+    nsim = 4000 if tier == "quick" else 40000
     for i in range(nsim):
         cases.append({"mode": "sim", "seed": seed, "idx": i, "profile": ("hostile", "fastlat", "multi")[i % 3]})
     return cases
